@@ -148,8 +148,22 @@ fn child_curve<G: AffineRepr>(ch: &mut Child, curve: &'static str, seed: u64, th
         let companion = &fxs[(fi + 3) % fxs.len()];
         let k = fx.mirror.ipp.L.len();
         let B = env.pc.B;
+        let mut cells: Vec<(usize, usize)> = vec![];
         for l in 0..=maxlr {
             for r in 0..=maxlr {
+                cells.push((l, r));
+            }
+        }
+        // spot sizes around the shift-width boundaries of the round-count guard
+        for s in [31usize, 32, 33, 63, 64, 65, 66, 128] {
+            cells.push((s, s));
+            if fi == 0 {
+                cells.push((s, s - 1));
+                cells.push((s - 1, s));
+            }
+        }
+        {
+            for (l, r) in cells {
                 let mut pats: Vec<(String, Mirror<G>)> = vec![];
                 let base = {
                     let mut m = fx.mirror.clone();
